@@ -34,6 +34,16 @@ LiteralForm == \A i \in 1..Len(Syn.toks) : Syn.toks[i].k = "num" =>
                   /\ \A j \in 1..Len(Syn.toks[i].txt) : Syn.toks[i].txt[j] \in Digits \cup {"."}
                   /\ (Syn.toks[i].im => E = "cpx")
                   /\ (E = "i64" => ~HasPointIn(Syn.toks[i].txt))
+\* C15: the same text is the same expression in every evaluator that accepts it - same token kinds, same payload
+\* (function, literal text), same tree; and on the fragment the specification can compute, the same value
+\* (eval_i64's truncating / avg med are outside the fragment of the others, so "both computable" means "exact")
+CommonSyntax == Syn.v = "accept" =>
+                  \A e2 \in Evaluators \ {E} : LET s2 == Syntax(e2, str) IN
+                     s2.v = "accept" => (s2.toks = Syn.toks /\ s2.tree = Syn.tree)
+CommonValue == Syn.v = "accept" =>
+                  \A e2 \in Evaluators \ {E} : \A p \in {0, 3, -7} :
+                     LET s2 == Syntax(e2, str) v1 == Value(E, Syn, Val(p)) v2 == Value(e2, s2, Val(p)) IN
+                     (s2.v = "accept" /\ v1.k = "val" /\ v2.k = "val") => v1 = v2
 \* accepted only if everything was consumed: the characters of the tokens add up to the stripped input
 Behaviour == [chars |-> str, v |-> Syn.v, rule |-> Syn.rule, toks |-> Syn.toks, tree |-> Syn.tree]
 Emit == EmitOn => PrintT(<<"BEH", ToJson(Behaviour)>>)
